@@ -65,6 +65,30 @@ def poke(target: address, v: uint256) -> uint256:
     return staticcall Target(target).x()
 '''
 
+# a blueprint whose constructor READS its creator's storage / transient storage through the creator's getters, and (mode 2)
+# calls back a nonreentrant function of the creator
+BP_READ_HELPER = '''
+interface Creator:
+    def phase() -> uint256: view
+    def tphase() -> uint256: view
+    def locked_fn() -> uint256: nonpayable
+
+saw: public(uint256)
+tsaw: public(uint256)
+
+@deploy
+def __init__(mode: uint256):
+    if mode == 2:
+        extcall Creator(msg.sender).locked_fn()
+    self.saw = staticcall Creator(msg.sender).phase()
+    self.tsaw = staticcall Creator(msg.sender).tphase()
+
+@external
+@view
+def seen() -> (uint256, uint256):
+    return self.saw, self.tsaw
+'''
+
 # ---------------------------------------------------------------- regression (known finding iii)
 _add("regress_loop_store_forwarding", '''
 s1: uint256
@@ -829,6 +853,84 @@ def make_raw(x: uint256) -> uint256:
     return v + self.slot * 10 + self.tslot * 1000
 ''', helper="bp", prio=0)
 
+# the constructor of the created contract re-enters the creator and READS the slots written before the create
+# (`__BPLEN__` is replaced by the length of the blueprint's initcode before compilation)
+_add("create_reads_back", '''
+interface Child:
+    def seen() -> (uint256, uint256): view
+
+bp: public(address)
+phase: public(uint256)
+tphase: public(transient(uint256))
+n: public(uint256)
+
+@deploy
+def __init__(helper: address):
+    self.bp = helper
+
+@external
+def make(x: uint256) -> (uint256, uint256):
+    self.phase = 1
+    self.tphase = 11
+    child: address = create_from_blueprint(self.bp, convert(0, uint256))
+    self.phase = 2 + x % 3
+    self.tphase = 12
+    a: uint256 = 0
+    b: uint256 = 0
+    a, b = staticcall Child(child).seen()
+    return a, b
+
+@external
+def make_salt(x: uint256) -> (uint256, uint256, uint256):
+    self.phase = 5
+    self.tphase = 15
+    child: address = create_from_blueprint(self.bp, convert(1, uint256), salt=convert(self.n, bytes32))
+    self.n += 1
+    self.phase = 6
+    self.tphase = 0
+    a: uint256 = 0
+    b: uint256 = 0
+    a, b = staticcall Child(child).seen()
+    return a, b, self.phase
+
+@external
+def make_raw(x: uint256) -> (uint256, uint256):
+    self.phase = 21
+    self.tphase = 31
+    initcode: Bytes[4096] = slice(self.bp.code, 3, __BPLEN__)
+    child: address = raw_create(initcode, convert(0, uint256))
+    self.phase = 22
+    self.tphase = 32 + x % 2
+    a: uint256 = 0
+    b: uint256 = 0
+    a, b = staticcall Child(child).seen()
+    return a, b
+
+@external
+@nonreentrant
+def locked_fn() -> uint256:
+    self.n += 1
+    return self.n
+
+@external
+@nonreentrant
+def spawn() -> uint256:
+    # the only external interaction is the create; its constructor calls back locked_fn while the lock is held
+    child: address = create_from_blueprint(self.bp, convert(2, uint256))
+    return self.n
+
+@external
+@nonreentrant
+def spawn_soft() -> (bool, uint256):
+    child: address = create_from_blueprint(self.bp, convert(2, uint256), revert_on_failure=False)
+    return child == empty(address), self.n
+
+@external
+def spawn_unlocked() -> uint256:
+    child: address = create_from_blueprint(self.bp, convert(2, uint256))
+    return self.n
+''', helper="bpr", prio=0)
+
 _add("call_callback", C2._IFACE + '''
 helper: public(Helper)
 x: public(uint256)
@@ -1369,7 +1471,7 @@ for _c in C2.CORPUS:
                    "helper": "std" if "def __init__(helper: address)" in _c["src"] else None,
                    "key": None, "prio": 2})
 
-HELPERS = {"std": (C2.HELPER, False), "bp": (BLUEPRINT_HELPER, True), "peek": (PEEK_HELPER, False)}
+HELPERS = {"std": (C2.HELPER, False), "bp": (BLUEPRINT_HELPER, True), "peek": (PEEK_HELPER, False), "bpr": (BP_READ_HELPER, True)}
 
 
 def select(tier, rnd):
